@@ -14,9 +14,9 @@ import (
 )
 
 const (
-	rfInit, rfVersion, rfOpen, rfClose, rfRead, rfWrite, rfLstat, rfFstat      = 1, 2, 3, 4, 5, 6, 7, 8
-	rfSetstat, rfFsetstat, rfOpendir, rfReaddir, rfRemove, rfMkdir, rfRmdir   = 9, 10, 11, 12, 13, 14, 15
-	rfRealpath, rfStat, rfRename, rfReadlink, rfSymlink                       = 16, 17, 18, 19, 20
+	rfInit, rfVersion, rfOpen, rfClose, rfRead, rfWrite, rfLstat, rfFstat    = 1, 2, 3, 4, 5, 6, 7, 8
+	rfSetstat, rfFsetstat, rfOpendir, rfReaddir, rfRemove, rfMkdir, rfRmdir  = 9, 10, 11, 12, 13, 14, 15
+	rfRealpath, rfStat, rfRename, rfReadlink, rfSymlink                      = 16, 17, 18, 19, 20
 	rfStatus, rfHandle, rfData, rfName, rfAttrs, rfExtended, rfExtendedReply = 101, 102, 103, 104, 105, 200, 201
 
 	rfOK, rfEOF, rfNoSuchFile, rfPermDenied, rfFailure, rfBadMessage, rfNoConn, rfConnLost, rfUnsupported = 0, 1, 2, 3, 4, 5, 6, 7, 8
